@@ -879,9 +879,15 @@ fn expr_to_asg_texpr(
         }
 
         synast::Expr::IndexExpr(index_expr) => {
-            let expr = expr_to_asg_texpr(index_expr.expr(), context);
-            let index = index_operator_to_asg_type(index_expr.index_operator().unwrap(), context);
-            Some(asg::IndexExpression::new(expr.unwrap(), index).to_texpr())
+            // The indexed expression may be untranslatable, e.g. `()[1]`.
+            let Some(expr) = expr_to_asg_texpr(index_expr.expr(), context) else {
+                return not_impl_expr(context, &index_expr);
+            };
+            let Some(index_operator) = index_expr.index_operator() else {
+                return not_impl_expr(context, &index_expr);
+            };
+            let index = index_operator_to_asg_type(index_operator, context);
+            Some(asg::IndexExpression::new(expr, index).to_texpr())
         }
 
         synast::Expr::IndexedIdentifier(indexed_identifier) => {
